@@ -364,6 +364,14 @@ func (r *FnRun) rowReset(st *State, leaf string, ref string, leafsort, def strin
 	nt := sSto(cur, ref, "((as const (Array Int "+leafsort+")) "+def+")")
 	name := r.fresh(leaf, arrSort(2, leafsort))
 	st.assume(sEq(name, nt))
+	// the row for the (fresh) reference is now the default: drop cached writes to that very row
+	var keep []wentry
+	for _, w := range st.wcache[leaf] {
+		if len(w.idx) > 0 && w.idx[0] != ref {
+			keep = append(keep, w)
+		}
+	}
+	st.wcache[leaf] = keep
 	return name
 }
 
@@ -499,10 +507,7 @@ func (r *FnRun) indexAddr(st *State, fr *frame, x *ssa.IndexAddr) *V {
 		}
 		st.assume(goal)
 	}
-	pos := idx
-	if off != "0" {
-		pos = "(+ " + off + " " + idx + ")"
-	}
+	pos := st.ixTerm(off, idx)
 	l := st.elemLoc(arr, pos, et)
 	if l.Obj != "" {
 		return vInt(l.Obj, x.Type())
